@@ -163,6 +163,12 @@ func checkC11(r *core.Run) {
 	r.Rule("T-takeover: when a migration completes, the new shard takes over the old shard's current paid period at that moment: OrderId and RenewInfos are copied from the old shard (looked up by shard.From in this transaction) on every path to the market hand-over")
 	r.Rule("T-lifetime: in Complete the model is extended to the height scheduled for the shard; in Renew every persisted renewal is followed by ExtendMetaDuration")
 	r.Rule("T-sched-meta (shared with C05/C13)")
+	r.Rule("T-remaining-term: at the hand-over of a migrating shard the replacement's Duration is computed from the replaced shard's own CreatedAt and Duration (its release is scheduled at the end of the paid period)")
+	ruleRemainingTerm(r, "T-remaining-term")
+	r.Rule("T-extend-meta: in Complete every path that schedules the shard's expiry (SetExpiredShardBlock) and succeeds also extends the model's lifetime to that height (ExtendMetaDuration), for every shard and not only the one that completes the order")
+	ruleExtendMeta(r, "T-extend-meta")
+	r.Rule("T-unschedule: removeDataExpireBlock writes back a list without the id being dropped")
+	ruleUnschedule(r, "T-unschedule")
 	r.Assume(aDeps)
 	r.Assume(aCG)
 	ruleSchedShard(r)
@@ -681,6 +687,8 @@ func checkC13(r *core.Run) {
 	r.Rule("G-alias-free: NewMeta writes the alias entry and the metadata only when no alias entry exists under that (owner, alias, group) key and no metadata under that data id (unconditionally: an existing entry is never overwritten)")
 	r.Rule("T-loopvar: in the storage handlers no address of a variable re-assigned per loop iteration is stored into a slice/field inside its loop (every order whose shard list is rewritten at a hand-over must be its own record)")
 	ruleLoopVarAddr(r, "T-loopvar", "sao/keeper.msgServer.")
+	r.Rule("T-shard-owner: a shard record is created naming the order it is created for (OrderId = Id of the *Order handed to the creating function, the order whose Shards the caller extends)")
+	ruleShardOwner(r, "T-shard-owner")
 	r.Assume(aDeps)
 	r.Assume(aCG)
 	aliasKey := "*"
